@@ -340,6 +340,15 @@ def gen_cases(tier: str, seed: int) -> List[Dict]:
         (("q9", "q10", "q11"), ("q10", "q11"), [[1, 0], [0, 1]], [[0, 1, 1], [1, 0, 0]]),
     ]:
         add("multi-names", names, spec("d", dnames, dv, (), 1, lit=0.75), dividend=spec("n", names, de, (), 2))
+    # leading-coefficient ratios that floating point cannot represent ((1/49)*49 != 1): natively the eliminated term leaves a
+    # rounding residue behind unless it is cleared, over operands that do / do not declare the default indeterminate q0
+    for names in (("q1",), ("q0",), ("q2", "q10"), ("q10", "q11")):
+        for lead in (49, 98, 103):
+            nn = len(names)
+            dv = {"kind": "poly", "names": list(names), "exps": [[1] + [0] * (nn - 1), [0] * nn], "shape": [], "slots": [[lead], [1]], "mode": "raw", "dtype": "float64"}
+            de = {"kind": "poly", "names": list(names), "exps": [[2] + [0] * (nn - 1), [1] + [0] * (nn - 1)] + ([[0] * (nn - 1) + [1]] if nn > 1 else []), "shape": [],
+                  "slots": [[1], [1]] + ([[3]] if nn > 1 else []), "mode": "raw", "dtype": "float64"}
+            add("inexact-ratio", names, dv, dividend=de)
     # divisors with several incomparable top terms (the q1**2 - 2*q0 pattern)
     inc = [
         (("q0", "q1"), [[1, 0], [0, 2]], [[1, 2]]),
